@@ -707,6 +707,9 @@ fn classify_watermark_finding(op: TOp, in_trace: Option<&Trace>, out_trace: &Tra
 }
 
 pub fn run_c06(args: &Args, report: &mut Report) {
+    // the same scripted pipelines serve C06 (watermark contract) and C05 (protocol grammar on
+    // timestamped streams, which the random programs of jobgen do not have)
+    let wanted = if args.prop == "C05" { Class::Grammar } else { Class::Watermark };
     let rng = Rng::new(args.seed).fork(0xC06).fork(args.shard);
     let cases = if args.thorough { 700 } else { 60 };
     let mut next_id = 0u64;
@@ -826,7 +829,7 @@ pub fn run_c06(args: &Args, report: &mut Report) {
         for t in sorted {
             wms += t.evs.iter().filter(|e| e.kind == K_WM).count() as u64;
             let (_, fs) = check_grammar(t);
-            for f in fs.into_iter().filter(|f| f.class == Class::Watermark) {
+            for f in fs.into_iter().filter(|f| f.class == wanted) {
                 if let Some((p, id)) = tainted_from {
                     if t.probe > p {
                         known.push(id);
@@ -861,7 +864,7 @@ pub fn run_c06(args: &Args, report: &mut Report) {
             report.case(Verdict::Held, (wms > 0).then_some(h), || detail(None));
         }
     }
-    if args.shard == 0 {
+    if args.shard == 0 && wanted == Class::Watermark {
         pinned_f5(report);
     }
 }
